@@ -1,11 +1,12 @@
 // C12 — numerical derivatives are transparent and exact on low-degree polynomials
 // VF-VARIANT: san
-// VF-RULE: E2 "single": for each scheme, every (polynomial of the family, interval, cross on/off [three-point], evaluation point of the grid {lb, lb+h/2, lb+3h/2, mid, ub-3h/2, ub-h/2, ub}^constrained x {-1.5,0,0.75}^unconstrained, selected-variable set) is run on a fresh wrapper with one full update and every query; thorough adds every entry point (all variables selected) and every ordered non-empty selection (interval 1e-4). E1 "hist": breadth-first over all operation histories (level 1 chooses polynomial x kind of wrapped function, later levels the operations setParameters / setParametersValues / matchParametersValues(+unknown name) / f() over every non-empty variable subset and value combination, setAllParametersValues, setParameterValue, setParametersToDerivate(every ordered subset), setInterval(1e-2,1e-4,1e-6), toggles of first/second/cross derivative computation), all queries after every operation, states de-duplicated on the complete concrete state. A case is non-trivial when the operation made the wrapper probe the wrapped function (at least one recorded evaluation away from the requested point) or changed the state.
+// VF-RULE: E2 "single": for each scheme, every (polynomial of the family, interval, cross on/off [three-point], evaluation point of the grid {lb, lb+h/2, lb+3h/2, mid, ub-3h/2, ub-h/2, ub}^constrained x {-1.5,0,0.75}^unconstrained) is run on a fresh wrapper with all variables selected, one full setParameters and every query; thorough adds every entry point (all variables selected) and every ordered non-empty selection of variables (interval 1e-4). E1 "hist": breadth-first over all operation histories (level 1 chooses polynomial x kind of wrapped function, later levels the operations setParameters / setParametersValues / matchParametersValues(+unknown name) / f() over every non-empty variable subset and value combination, setAllParametersValues, setParameterValue, setParametersToDerivate(every ordered subset), setInterval(1e-2,1e-4,1e-6), toggles of first/second/cross derivative computation), all queries after every operation, states de-duplicated on the complete concrete state. A case is non-trivial when the operation made the wrapper probe the wrapped function (at least one recorded evaluation away from the requested point) or changed the state.
 // VF-BOUND: polynomials: every monomial of total degree 0..5 in 1..3 variables (coefficients cycling 1,-2,3) + dense polynomials of degree 1..5 + x^2y+3y^2 (E2: 100 polynomials; E1: 2/3/2 (quick) or 4/3/4 (thorough) per arity) instead of random coefficients and 4 variables; intervals {1e-2,1e-4,1e-6}; boxes x in [-1,2], y in [0.5,3], z free; E1 values per variable: 5 (1 var) / 3 (2 vars) / 2 (3 vars) including on-bound and 5e-7 next to a bound; E1 history depth after the configuration level: quick 3/2/2, thorough 4/3/2 for 1/2/3 variables; wrapped function follows the library's own TestFunction idiom (setParameters = matchParametersValues)
 // VF-LEVEL: exhaustive over the stated finite alphabet on the real wrapper classes: transparency (position, value, last evaluation point) judged exactly, derivatives judged against analytic derivatives with a derived truncation+rounding bound (zero truncation where the scheme is exact), after every operation of every history up to the depth bound
 // VF-ASSUME: the harness polynomial class (evaluation, symbolic derivative, abs-polynomial bounds) is correct;; the wrapped harness function built on bpp::AbstractParametrizable/ParameterList/IntervalConstraint behaves as documented (those are C01/C02's subject);; floating-point arithmetic is IEEE double, rounding bound gamma_k with k = terms+7
 // VF-TECHNIQUE: bounded-exhaustive history exploration of the real classes against an analytic reference model
-// VF-BUDGET_QUICK: 150
+// VF-BUDGET_QUICK: 300
+// VF-BUDGET_THOROUGH: 2400
 #include "vf.hpp"
 #include "common.hpp"
 #include <Bpp/Numeric/Function/TwoPointsNumericalDerivative.h>
@@ -239,6 +240,20 @@ struct Sys : vf::SysBase {
   bool everUpd = false;    // an update entry point has been used (wrapper getValue is defined)
   bool derCur = false;     // numeric derivatives were due at the last update and the selection has not changed since
   double hU = 0; bool D2U = false, XU = false, XnearU = false; int lastMask = 0; bool lastWasUpdate = false;
+  // cached derivative values before the current update operation (read from the wrapper's arrays; only used to CLASSIFY a wrong value as
+  // "not recomputed" vs "recomputed wrongly", never to decide whether it is wrong)
+  double prev1[3], prev2[3], prevX[3][3];
+  void snap() {
+    double nan = std::numeric_limits<double>::quiet_NaN();
+    for (int v = 0; v < 3; ++v) { prev1[v] = prev2[v] = nan; for (int w = 0; w < 3; ++w) prevX[v][w] = nan; }
+    for (int v = 0; v < n; ++v) {
+      auto it = nd->index_.find(VN[v]); if (it == nd->index_.end()) continue;
+      if (it->second < nd->der1_.size()) prev1[v] = nd->der1_[it->second];
+      if (it->second < nd->der2_.size()) prev2[v] = nd->der2_[it->second];
+      for (int w = 0; w < n; ++w) { auto jt = nd->index_.find(VN[w]); if (jt == nd->index_.end()) continue;
+        if (it->second < nd->crossDer2_.getNumberOfRows() && jt->second < nd->crossDer2_.getNumberOfColumns()) prevX[v][w] = nd->crossDer2_(it->second, jt->second); }
+    }
+  }
 
   Sys(int s, int nv, const std::vector<Poly>* f, const std::vector<OpDesc>* a) : scheme(s), n(nv), fam(f), alpha(a) { pos = {{0, 0, 0}}; }
   std::string S() const { return SCH[scheme]; }
@@ -341,6 +356,7 @@ struct Sys : vf::SysBase {
         break;
       case UPD: {
         ParameterList pl = makeList(o);
+        if (!c.muted) snap();
         for (int v = 0; v < n; ++v) if (o.mask & (1 << v)) pos[v] = o.val[v];
         lastMask = o.mask; lastWasUpdate = true;
         bool raised = false; std::string what; double ret = 0;
@@ -426,7 +442,8 @@ struct Sys : vf::SysBase {
     b.tol = trunc + round; return b;
   }
 
-  void judge(vf::Case& c, const std::string& what, const std::string& vars, bool absent, double got, const Bnd& b, const std::string& cx) {
+  void judge(vf::Case& c, const std::string& what, const std::string& vars, bool absent, double prev, double got, const Bnd& b, const std::string& cx) {
+    absent = absent && lastWasUpdate && (got == prev || (std::isnan(got) && std::isnan(prev))); // absent from the update list AND the cached value was left untouched
     if (std::fabs(got - b.an) <= b.tol) { c.tag(what + (b.near ? ":ok-next-to-bound" : ":ok-interior")); return; }
     std::string sig;
     if (!std::isfinite(got)) sig = what + "|not-finite" + (b.near ? "-next-to-bound" : "");
@@ -464,7 +481,7 @@ struct Sys : vf::SysBase {
         try { got = A.getFirstOrderDerivative(VN[v]); } catch (bpp::Exception&) { raised = true; }
         if (D1 && inSel(v)) {
           if (raised) c.fail("d1|query-raised-for-selected-variable|" + S(), cx + ": variable " + VN[v]);
-          else if (derCur) judge(c, "d1", VN[v], absent, got, bound1(v), cx);
+          else if (derCur) judge(c, "d1", VN[v], absent, prev1[v], got, bound1(v), cx);
         } else if (f1) {
           if (raised) c.fail("delegation|d1-raised-though-wrapped-function-provides-it|" + S(), cx + ": variable " + VN[v]);
           else if (got != fn->an1(VN[v])) c.fail("delegation|d1-differs-from-wrapped-function|" + S(), cx + ": variable " + VN[v] + " got " + num(got) + " wrapped function gives " + num(fn->an1(VN[v])));
@@ -482,7 +499,7 @@ struct Sys : vf::SysBase {
         if (scheme == 0) c.tag(raised ? "d2:two-point-raises-as-documented" : "d2:two-point-returned");
         else if (D2 && inSel(v)) {
           if (raised) c.fail("d2|query-raised-for-selected-variable|" + S(), cx + ": variable " + VN[v]);
-          else if (derCur && D2U) judge(c, "d2", VN[v], absent, got, bound2(v), cx);
+          else if (derCur && D2U) judge(c, "d2", VN[v], absent, prev2[v], got, bound2(v), cx);
         } else if (f2) {
           if (raised) c.fail("delegation|d2-raised-though-wrapped-function-provides-it|" + S(), cx + ": variable " + VN[v]);
           else if (got != fn->an2(VN[v], VN[v])) c.fail("delegation|d2-differs-from-wrapped-function|" + S(), cx + ": variable " + VN[v] + " got " + num(got));
@@ -502,8 +519,8 @@ struct Sys : vf::SysBase {
           if (raised) c.fail("cross|query-raised-for-selected-variables|" + S(), cx + ": variables " + VN[v] + "," + VN[w]);
           else if (derCur && XU && !XnearU && (v != w || D2U)) {
             bool ab = absent || !(lastMask & (1 << w));
-            if (v == w) judge(c, "cross-diagonal", std::string(VN[v]) + "," + VN[w], ab, got, bound2(v), cx);
-            else judge(c, "cross", std::string(VN[v]) + "," + VN[w], ab, got, boundX(v, w), cx);
+            if (v == w) judge(c, "cross-diagonal", std::string(VN[v]) + "," + VN[w], ab, prevX[v][w], got, bound2(v), cx);
+            else judge(c, "cross", std::string(VN[v]) + "," + VN[w], ab, prevX[v][w], got, boundX(v, w), cx);
           }
         } else if (f2) {
           if (raised) c.fail("delegation|cross-raised-though-wrapped-function-provides-it|" + S(), cx);
